@@ -37,7 +37,7 @@ func phaseInvs(policy string) []invFn {
 	} else {
 		libs = []invFn{checkBalloons, checkBalloonsMemory, checkBalloonsNoStaleHolders, checkRuntimeView}
 	}
-	out := []invFn{checkPhase, checkNoPushInsideRequest}
+	out := []invFn{checkPhase, checkNoPushInsideRequest, checkNoPushUnderPipelineLock}
 	for _, lib := range libs {
 		lib := lib
 		out = append(out, func(e *executor, r *stepResult) *vfkit.Violation {
@@ -100,4 +100,19 @@ func checkNoPushInsideRequest(e *executor, r *stepResult) *vfkit.Violation {
 	}
 	return viol(c15, "no request deadlocks", "unsolicited-update-inside-request:"+r.Handler,
 		"%s: the handler called stub.UpdateContainers before returning (%v); the runtime serves that call under the lock it holds while this request is outstanding", r.Desc, inside)
+}
+
+// checkNoPushUnderPipelineLock: unsolicited updates sent while the sender
+// holds the resource manager lock. The runtime delivers requests holding its
+// adaptation lock and the handlers then take the resource manager lock; a
+// sender that holds the resource manager lock and waits for the adaptation
+// lock closes the cycle as soon as a request is in flight. The request then
+// ends by the runtime's timeout, which disconnects the plugin.
+func checkNoPushUnderPipelineLock(e *executor, r *stepResult) *vfkit.Violation {
+	locked := e.h.stub.takePushedLocked()
+	if len(locked) == 0 {
+		return nil
+	}
+	return viol(c15, "no request deadlocks", "push-while-holding-pipeline-lock:"+r.Handler,
+		"%s: stub.UpdateContainers was called with the resource manager lock held (%v): lock-order inversion against any request the runtime delivers meanwhile", r.Desc, locked)
 }
